@@ -43,16 +43,34 @@ var curDriver atomic.Pointer[Driver]
 // progress counter for the watchdog (outside any bubble)
 var progress atomic.Uint64
 
+// prngReader feeds google/uuid. One stream per instance (the goroutine asking is mapped to the
+// instance it was last seen working for), so that the tokens an instance gets do not depend on
+// which of two instances' goroutines happened to run first at one instant.
 type prngReader struct {
-	mu sync.Mutex
-	r  *Rng
+	mu   sync.Mutex
+	seed uint64
+	rs   map[int]*Rng
 }
 
 func (p *prngReader) Read(b []byte) (int, error) {
+	inst := -1
+	if d := curDriver.Load(); d != nil && !d.free {
+		g := goid()
+		d.mu.Lock()
+		if i, ok := d.gidInst[g]; ok {
+			inst = i
+		}
+		d.mu.Unlock()
+	}
 	p.mu.Lock()
 	defer p.mu.Unlock()
+	r := p.rs[inst]
+	if r == nil {
+		r = NewRng(p.seed, fmt.Sprintf("uuid/%d", inst))
+		p.rs[inst] = r
+	}
 	for i := range b {
-		b[i] = byte(p.r.U64())
+		b[i] = byte(r.U64())
 	}
 	return len(b), nil
 }
@@ -98,7 +116,17 @@ func (d *Driver) jitterDraw() uint64 {
 	g := goid()
 	d.mu.Lock()
 	defer d.mu.Unlock()
-	u := d.rJit.U64()
+	rj := d.rJit
+	if i, ok := d.gidInst[g]; ok {
+		if d.rJitInst == nil {
+			d.rJitInst = map[int]*Rng{}
+		}
+		if d.rJitInst[i] == nil {
+			d.rJitInst[i] = NewRng(d.plan.Seed, fmt.Sprintf("jitter/%d", i))
+		}
+		rj = d.rJitInst[i]
+	}
+	u := rj.U64()
 	f := float64(u<<11>>11) / (1 << 53)
 	d.h.Jitters = append(d.h.Jitters, &JitterEvt{T: d.now(), Step: d.step, U: u, F: f, GID: g, Caller: caller})
 	return u
@@ -207,8 +235,11 @@ func RunPlan(t *testing.T, p *Plan, keepLog bool) (res *Result) {
 	t0 := time.Now()
 	var d *Driver
 	res = &Result{Seed: p.Seed, Family: p.Family}
-	uuid.SetRand(&prngReader{r: NewRng(p.Seed, "uuid")})
-	simSelectState = NewRng(p.Seed, "select").U64() | 1
+	uuid.SetRand(&prngReader{seed: p.Seed, rs: map[int]*Rng{}})
+	if !p.Sched.Free {
+		// (free-run mode keeps the stock scheduler: natural select order and time slicing)
+		simSelectState = NewRng(p.Seed, "select").U64() | 1
+	}
 	func() {
 		defer func() {
 			if r := recover(); r != nil {
